@@ -192,6 +192,46 @@ def check_then_act(F, R, ver):
     R.floor('C05.check-then-act', '%s awaiting send paths' % ver, n, 5)
 
 
+def eager_reservation(F, R, ver):
+    """A sink function that tests the window when it is CALLED (plain fn returning a future) must also take
+    the slot at the call: the enqueue may not be deferred into a coroutine that only runs when the returned
+    future is first polled - two sends created back to back would both pass the test."""
+    n = 0
+    for b in F.find(r'^%s::sink::\w+::\w+$' % ver):
+        if b.is_coroutine:
+            continue
+        rs = [(bi, t) for bi, t in b.calls_to(r'^%s::shared::MqttShared::wait_readiness$' % ver)]
+        if not rs:
+            continue
+        for rb, rt in rs:
+            r = discr_switch_after_call(b, rb)
+            if not r:
+                continue
+            sw, tg, oth = r
+            free = tg.get(0, oth)      # None: window is free
+            wait = tg.get(1, oth)
+            reg = b.reachable(free, avoid=[wait])
+            for bi, t in b.calls():
+                if bi not in reg:
+                    continue
+                nm = callee_name(t) or ''
+                if re.match(ENQ % ver, nm):
+                    n += 1
+                    R.ob('C05.check-then-act', '%s|window-free=>slot-taken-at-the-call|%s' % (b.path, nm.split('::')[-1]), True, '', b.loc(bi))
+                    continue
+                q = F.bodies.get(nm)
+                if q is None or not re.search(r'^%s::sink::' % ver, nm):
+                    continue
+                direct = any(re.match(ENQ % ver, callee_name(t2) or '') for _, t2 in q.calls())
+                lazy = [c for c in F.descendants(q) if c.is_coroutine and any(re.match(ENQ % ver, callee_name(t2) or '') for _, t2 in c.calls())] if hasattr(F, 'descendants') else []
+                if not direct and not lazy:
+                    continue
+                n += 1
+                R.ob('C05.check-then-act', '%s|window-free=>slot-taken-at-the-call|%s' % (b.path, nm.split('::')[-1]), direct and not lazy,
+                     'the window is tested when %s() is called but %s() enqueues only inside its future (first poll): sends created back to back and then driven together all pass the test and exceed the window' % (b.path.split('::')[-1], nm.split('::')[-1]), b.loc(bi))
+    R.floor('C05.check-then-act', '%s call-time window tests with a send behind them' % ver, n, 3)
+
+
 def awaited_is_waiter(b, a):
     t = b.blocks[a['poll']]['term']
     # Pin<&mut Receiver<()>> argument type
@@ -283,4 +323,5 @@ def run(F, R):
         pubrec_keeps_slot(F, R, ver)
         gated(F, R, ver)
         check_then_act(F, R, ver)
+        eager_reservation(F, R, ver)
     cap_source(F, R)
